@@ -37,6 +37,13 @@ def run(ctx, db, tier):
     ready_means_resolved(ctx, db)
     from . import C01
     C01.dtor_and_assign(ctx, db, 'C02.abandoned-promise-releases')
+    # a future that is born resolved (set_value / set_exception / set_not_value) must refuse every waiter at once
+    C01.resolved_constructors(ctx, db, 'C02.born-resolved-accepts-no-waiter')
+    # "however many waiters there are": the resolver collects the released waiters in a suspend point, which spills to the heap beyond three
+    # handles; each of them must come out again exactly once (pop, iteration, flush)
+    from . import C06
+    C06.typestate(ctx, db, 'C02.many-waiters-carried-intact')
+    C06.consumers_clear(ctx, db, 'C02.many-waiters-each-taken-once')
     # a payload stored without the resolution that follows it in every resolver leaves the waiters suspended for ever
     C01.receivers(ctx, db, 'C02.no-store-without-release')
     atomic.check_roles(ctx, db, 'C02.observes-complete-result', only_functions=RESULT_VISIBILITY_FUNCTIONS, floor=8)
